@@ -8,7 +8,8 @@ H = "vq.harness.h_timeout"
 
 
 def nreads(text):
-    env = dict(os.environ, PYTHONPATH=VERIF, PYTHONWARNINGS="ignore", VQ_TEXT=text)
+    repo = os.environ.get("VQ_REPO")
+    env = dict(os.environ, PYTHONPATH=(repo + os.pathsep if repo else "") + VERIF, PYTHONWARNINGS="ignore", VQ_TEXT=text)
     p = subprocess.run([PY, "-c", "import vq.harness.h_timeout as H; print('NREADS', H.NREADS)"], env=env, capture_output=True, text=True)
     for line in p.stdout.split("\n"):
         if line.startswith("NREADS"):
